@@ -5,6 +5,8 @@
 package account
 
 import (
+	"bytes"
+
 	"github.com/33cn/chain33/client"
 	"github.com/33cn/chain33/common/address"
 	"github.com/33cn/chain33/types"
@@ -108,9 +110,13 @@ func (acc *DB) ExecFrozen(addr, execaddr string, amount int64) (*types.Receipt, 
 		alog.Error("ExecFrozen", "balance", acc1.Balance, "amount", amount)
 		return nil, types.ErrNoBalance
 	}
+	newFrozen, err := safeAdd(acc1.Frozen, amount)
+	if err != nil {
+		return nil, err
+	}
 	copyacc := types.CloneAccount(acc1)
 	acc1.Balance -= amount
-	acc1.Frozen += amount
+	acc1.Frozen = newFrozen
 	receiptBalance := &types.ReceiptExecAccountTransfer{
 		ExecAddr: execaddr,
 		Prev:     copyacc,
@@ -133,8 +139,12 @@ func (acc *DB) ExecActive(addr, execaddr string, amount int64) (*types.Receipt, 
 	if acc1.Frozen-amount < 0 {
 		return nil, types.ErrNoBalance
 	}
+	newBalance, err := safeAdd(acc1.Balance, amount)
+	if err != nil {
+		return nil, err
+	}
 	copyacc := types.CloneAccount(acc1)
-	acc1.Balance += amount
+	acc1.Balance = newBalance
 	acc1.Frozen -= amount
 	receiptBalance := &types.ReceiptExecAccountTransfer{
 		ExecAddr: execaddr,
@@ -148,7 +158,7 @@ func (acc *DB) ExecActive(addr, execaddr string, amount int64) (*types.Receipt, 
 
 // ExecTransfer 执行转帐
 func (acc *DB) ExecTransfer(from, to, execaddr string, amount int64) (*types.Receipt, error) {
-	if from == to {
+	if bytes.Equal(address.FormatAddrKey(from), address.FormatAddrKey(to)) {
 		return nil, types.ErrSendSameToRecv
 	}
 	if !acc.CheckAmount(amount) {
@@ -160,11 +170,15 @@ func (acc *DB) ExecTransfer(from, to, execaddr string, amount int64) (*types.Rec
 	if accFrom.GetBalance()-amount < 0 {
 		return nil, types.ErrNoBalance
 	}
+	newBalance, err := safeAdd(accTo.Balance, amount)
+	if err != nil {
+		return nil, err
+	}
 	copyaccFrom := types.CloneAccount(accFrom)
 	copyaccTo := types.CloneAccount(accTo)
 
 	accFrom.Balance -= amount
-	accTo.Balance += amount
+	accTo.Balance = newBalance
 
 	receiptBalanceFrom := &types.ReceiptExecAccountTransfer{
 		ExecAddr: execaddr,
@@ -184,7 +198,7 @@ func (acc *DB) ExecTransfer(from, to, execaddr string, amount int64) (*types.Rec
 
 // ExecTransferFrozen 从自己冻结的钱里面扣除，转移到别人的活动钱包里面去
 func (acc *DB) ExecTransferFrozen(from, to, execaddr string, amount int64) (*types.Receipt, error) {
-	if from == to {
+	if bytes.Equal(address.FormatAddrKey(from), address.FormatAddrKey(to)) {
 		return nil, types.ErrSendSameToRecv
 	}
 	if !acc.CheckAmount(amount) {
@@ -196,11 +210,15 @@ func (acc *DB) ExecTransferFrozen(from, to, execaddr string, amount int64) (*typ
 	if b < 0 {
 		return nil, types.ErrNoBalance
 	}
+	newBalance, err := safeAdd(accTo.Balance, amount)
+	if err != nil {
+		return nil, err
+	}
 	copyaccFrom := types.CloneAccount(accFrom)
 	copyaccTo := types.CloneAccount(accTo)
 
 	accFrom.Frozen -= amount
-	accTo.Balance += amount
+	accTo.Balance = newBalance
 
 	receiptBalanceFrom := &types.ReceiptExecAccountTransfer{
 		ExecAddr: execaddr,
@@ -269,8 +287,12 @@ func (acc *DB) execDepositFrozen(addr, execaddr string, amount int64) (*types.Re
 		return nil, types.ErrAmount
 	}
 	acc1 := acc.LoadExecAccount(addr, execaddr)
+	newFrozen, err := safeAdd(acc1.Frozen, amount)
+	if err != nil {
+		return nil, err
+	}
 	copyacc := types.CloneAccount(acc1)
-	acc1.Frozen += amount
+	acc1.Frozen = newFrozen
 	receiptBalance := &types.ReceiptExecAccountTransfer{
 		ExecAddr: execaddr,
 		Prev:     copyacc,
@@ -290,8 +312,12 @@ func (acc *DB) ExecDeposit(addr, execaddr string, amount int64) (*types.Receipt,
 		return nil, types.ErrAmount
 	}
 	acc1 := acc.LoadExecAccount(addr, execaddr)
+	newBalance, err := safeAdd(acc1.Balance, amount)
+	if err != nil {
+		return nil, err
+	}
 	copyacc := types.CloneAccount(acc1)
-	acc1.Balance += amount
+	acc1.Balance = newBalance
 	receiptBalance := &types.ReceiptExecAccountTransfer{
 		ExecAddr: execaddr,
 		Prev:     copyacc,
